@@ -12,6 +12,7 @@ import CfVerif.Proofs.C08HL
 import CfVerif.Proofs.C08Full
 import CfVerif.Proofs.C08Wire
 import CfVerif.Proofs.C08Complete
+import CfVerif.Proofs.C08Hist
 namespace CfVerif.C08
 open CfVerif
 
@@ -218,6 +219,29 @@ theorem gen_emitters :
       "_request_protocol_version", "_crt_service_callback"] ∧
     Gen.C08.emitters_LoPoAnchor = ["set_position", "reboot", "set_mode"] := by decide
 
+/-- **State of the long-lived objects.**  The only attributes the emitting classes ever store are the constructor's,
+`Commander._x_mode` (set_client_xmode) and `PlatformService._protocolVersion` / `_callback` (handshake); the modelled
+emitting methods read no instance state but `_cf` and `_x_mode`; no decorators (caches), no module-level mutable state;
+`get_protocol_version()` returns the attribute as it is at call time.  (The version comparisons themselves are pinned per
+method in `gen_hover` ... as `self._cf.platform.get_protocol_version() <= 8` / `< 8`.) -/
+theorem gen_object_state :
+    Gen.C08.stores_Commander = ["__init__:self._cf", "__init__:self._x_mode", "set_client_xmode:self._x_mode"] ∧
+    Gen.C08.stores_HighLevelCommander = ["__init__:self._cf"] ∧
+    Gen.C08.stores_Localization = ["__init__:self._cf", "__init__:self.receivedLocationPacket"] ∧
+    Gen.C08.stores_Extpos = ["__init__:self._cf"] ∧
+    Gen.C08.stores_PlatformService = ["__init__:self._cf", "__init__:self._protocolVersion", "__init__:self._callback", "fetch_platform_informations:self._protocolVersion", "fetch_platform_informations:self._callback", "_crt_service_callback:self._protocolVersion", "_platform_callback:self._protocolVersion", "_platform_info_fetched:self._callback"] ∧
+    Gen.C08.stores_LoPoAnchor = ["__init__:self.crazyflie"] ∧
+    Gen.C08.selfReads_Commander = ["_cf", "_x_mode"] ∧ Gen.C08.selfReads_HighLevelCommander = ["_cf", "_send_packet"] ∧
+    Gen.C08.selfReads_Localization = ["_cf"] ∧ Gen.C08.selfReads_Extpos = ["_cf"] ∧
+    Gen.C08.selfReads_PlatformService = ["_cf"] ∧ Gen.C08.selfReads_LoPoAnchor = ["crazyflie"] ∧
+    Gen.C08.decorators_Commander = [] ∧ Gen.C08.decorators_HighLevelCommander = [] ∧ Gen.C08.decorators_Localization = [] ∧
+    Gen.C08.decorators_Extpos = [] ∧ Gen.C08.decorators_PlatformService = [] ∧ Gen.C08.decorators_LoPoAnchor = [] ∧
+    Gen.C08.getProtocolVersion = ["return self._protocolVersion"] ∧
+    Gen.C08.moduleState_commander = [] ∧ Gen.C08.moduleState_high_level_commander = [] ∧ Gen.C08.moduleState_extpos = [] ∧
+    Gen.C08.moduleState_lopoanchor = [] ∧ Gen.C08.moduleState_encoding = [] ∧
+    Gen.C08.moduleState_localization = ["logger = logging.getLogger(__name__)", "LocalizationPacket = collections.namedtuple('localizationPacket', ['type', 'raw_data', 'data'])"] ∧
+    Gen.C08.moduleState_platformservice = ["logger = logging.getLogger(__name__)"] := by decide
+
 /-- CRTPPacket: constructor defaults, property setters, header recomputation, size check in Crazyflie.send_packet -/
 theorem gen_packet :
     Gen.C08.pktInitParams = ["self", "header=0", "data=None"] ∧
@@ -324,6 +348,34 @@ theorem emit_decodes (ver : Int) (c : Call) (ps : List Packet) (h : emit ver c =
   | lopoPosition id x y z => exact .inl ((sound_lopoPosition ver id x y z).1 ps h hpre)
   | lopoReboot id m => exact .inl ((sound_lopoReboot ver id m).1 ps h hpre)
   | lopoMode id m => exact .inl ((sound_lopoMode ver id m).1 ps h hpre)
+
+/-- **Histories of one long-lived object set.**  `Commander`, `HighLevelCommander`, `Localization`, ... live as long as the
+`Crazyflie` object, across connections; between calls the platform service may learn a new protocol version (a new
+connection; -1 while the handshake is running) and the client may toggle x-mode.  For EVERY history (any interleaving of
+`negotiated v`, `setXmode b` and calls, from any initial state) and every call in it: the call is executed exactly as a
+fresh object would execute it under the version negotiated MOST RECENTLY before the call and the x-mode set most recently
+before it (nothing older is remembered), and hence whatever it hands to the link is one packet that the firmware of THAT
+version decodes to the caller's arguments. -/
+theorem history_decodes (s : Objs) (pre : List Ev) (c : Call) (post : List Ev) :
+    let ver := lastNegotiated pre s.version
+    let c' := c.withXmode (lastXmode pre s.xmode)
+    run s (pre ++ .call c :: post) = run s pre ++ { version := ver, call := c', result := emit ver c' } :: run (stateAfter s pre) post ∧
+    (∀ ps, emit ver c' = .ok ps → c'.Pre ver →
+      (∃ p, ps = [p] ∧ p.data.length ≤ 30 ∧ (expected? ver c').isSome ∧ Fw.decode ver p.header p.data = expected? ver c') ∨
+      (ps = [] ∧ ver < 8 ∧ ∃ a b c'' d e f g h', c' = .hlSpiral a b c'' d e f g h')) :=
+  ⟨run_call_at s pre c post, fun ps h hpre => emit_decodes _ _ ps h hpre⟩
+
+/-- every entry of a history's outcome list is the stateless `emit` of its (version in force, call as executed) -/
+theorem history_results (s : Objs) (evs : List Ev) : ∀ d ∈ run s evs, d.result = emit d.version d.call :=
+  run_results s evs
+
+/-- "most recently negotiated": the version in force after a history is the argument of its last `negotiated` event
+(the initial -1 of `PlatformService.__init__` if there is none); likewise the x-mode -/
+theorem history_version_is_latest (a b : List Ev) (v w : Int) (hb : ∀ e ∈ b, ∀ u, e ≠ .negotiated u) :
+    lastNegotiated (a ++ .negotiated v :: b) w = v ∧ lastNegotiated b w = w ∧
+    (stateAfter Objs.init b).version = -1 :=
+  ⟨lastNegotiated_append_negotiated a b v w hb, lastNegotiated_none b w hb,
+   by rw [stateAfter_eq]; exact lastNegotiated_none b _ hb⟩
 
 /-- **Unrepresentable arguments raise.**  If some argument cannot be represented in its field (a float beyond binary32,
 an int outside the field or thrust outside 0..65535, a float where an int is required, a fixed-point component outside
@@ -546,5 +598,17 @@ example : emit 7 (.hlSpiral (.f 0x401C000000000000 (.bits 0x40E00000)) (.f 0 (.b
 example : emit 10 (.lopoPosition (.i 7 (.err .other)) (.f 0 (.bits 0x3F800000)) (.f 0 (.bits 0x40000000)) (.f 0 (.bits 0))) =
     .ok [⟨0x6D, [2, 7, 1, 0, 0, 0x80, 0x3F, 0, 0, 0, 0x40, 0, 0, 0, 0]⟩] := by decide
 example : Fw.decodeLpp [1, 0, 0, 0x80, 0x3F, 0, 0, 0, 0x40, 0, 0, 0, 0] = some (.position 0x3F800000 0x40000000 0) := by decide
+
+-- one Commander across two connections: hover under v10 (type 10), then a v8 firmware (type 5, yaw rate negated), then a
+-- reconnect whose handshake has not finished (-1: legacy), then v9 again (type 10)
+example : (run Objs.init [.negotiated 10, .call (.hover (.f 0 (.bits 1)) (.f 0 (.bits 2)) (.f 0 (.bits 0x3F800000)) (.f 0 (.bits 4))),
+      .negotiated 8, .call (.hover (.f 0 (.bits 1)) (.f 0 (.bits 2)) (.f 0 (.bits 0x3F800000)) (.f 0 (.bits 4))),
+      .negotiated (-1), .call (.hover (.f 0 (.bits 1)) (.f 0 (.bits 2)) (.f 0 (.bits 0x3F800000)) (.f 0 (.bits 4))),
+      .negotiated 9, .call (.hover (.f 0 (.bits 1)) (.f 0 (.bits 2)) (.f 0 (.bits 0x3F800000)) (.f 0 (.bits 4)))]).map
+    (fun d => (d.version, d.result.map (·.map (fun p => (p.data.take 1, (p.data.drop 9).take 4))))) =
+    [(10, .ok [([10], [0, 0, 0x80, 0x3F])]), (8, .ok [([5], [0, 0, 0x80, 0xBF])]), (-1, .ok [([5], [0, 0, 0x80, 0xBF])]),
+     (9, .ok [([10], [0, 0, 0x80, 0x3F])])] := by decide
+example : ∀ e ∈ [Ev.setXmode true, .call .stopSetpoint], ∀ u, e ≠ .negotiated u := by
+  intro e he u; simp only [List.mem_cons, List.not_mem_nil, or_false] at he; rcases he with rfl | rfl <;> exact fun h => Ev.noConfusion h
 
 end CfVerif.C08
